@@ -28,11 +28,11 @@ theorem mlyLoop_aLoop_pos (r : Rule) (p : Inst) (nti : Nat) (hsh : r.shift = 0) 
     fuel q.1 q.2 mlyTries {} {} (Sim.rfl' _)
   exact h
 
-theorem mEp_sub (r : Rule) (p : Inst) (nti : Nat) (hr : WfRule r) (hp : WfInst p) (hs : SeedOk r p)
+theorem mEp_sub (r : Rule) (p : Inst) (nti : Nat) (hr : WfRule r) (hp : WfInst p)
     (hsup : MlySup r) (hy : 1901 ≤ p.y) (hf : r.freq = 2) (hsh : r.shift = 0) (hpos : r.pos ≠ [])
     (q : Nat × Int) (hq : mReach r p q) (hq2 : q.1 ≤ 2099) :
     (mEp r p nti q).Pairwise (fun a b => ltP a b = true) ∧ ∀ z ∈ mEp r p nti q, z ∈ mE r p nti q := by
-  refine ⟨?_, fun z hz => ((mem_mEp_iff r p nti hr hp hs hsup hy hf hsh hpos q hq hq2 z).1 hz).1⟩
+  refine ⟨?_, fun z hz => ((mem_mEp_iff r p nti hr hp hsup hy hf hsh hpos q hq hq2 z).1 hz).1⟩
   exact posE_sorted r p nti hr hp q.1 (by omega) _ (mlyCand_allVC r p nti hr hp q ⟨hq.1, hq.2.1⟩)
 
 theorem mlyFirst_of_pos {r : Rule} {p : Inst} (h : MlyFirstPos r p) : MlyFirst r p := by
@@ -42,7 +42,7 @@ theorem mlyFirst_of_pos {r : Rule} {p : Inst} (h : MlyFirstPos r p) : MlyFirst r
 /-- C01, soundness of the monthly filler with BYSETPOS (no SHIFT): every instant written is an instance of the rule
 anchored at the seed and is chosen by BYSETPOS -/
 theorem fillMly_sound_pos (r : Rule) (p : Inst) (n : Nat) (l : List Inst) (hr : WfRule r) (hp : WfInst p)
-    (hs : SeedOk r p) (_hn : n ≤ 64) (hy : 1901 ≤ p.y) (hsup : MlySup r) (hsh : r.shift = 0) (hf : r.freq = 2)
+    (_hn : n ≤ 64) (hy : 1901 ≤ p.y) (hsup : MlySup r) (hsh : r.shift = 0) (hf : r.freq = 2)
     (hpos : r.pos ≠ []) (h : fillMly r p n = some l) : ∀ x ∈ l, MonthlyInst r p x ∧ SetposOk r p x := by
   intro x hx
   rcases fillMly_cases r p n l hr hp hsh h with ⟨_, e⟩ | ⟨nti, _, ⟨_, e⟩ | ⟨q, hq, e⟩⟩
@@ -55,18 +55,18 @@ theorem fillMly_sound_pos (r : Rule) (p : Inst) (n : Nat) (l : List Inst) (hr : 
     rw [hq] at hst
     have H := loopHyp_sub (fun q : Nat × Int => q.1) (mE r p nti) (mEp r p nti)
       (fun q => mlyNext r.mon r.inter 12 q.1 q.2) (mly_loopHyp r p nti hr hp hsup hy)
-      (fun q hq hq2 => mEp_sub r p nti hr hp hs hsup hy hf hsh hpos q hq hq2)
+      (fun q hq hq2 => mEp_sub r p nti hr hp hsup hy hf hsh hpos q hq hq2)
     rcases aLoop_mem (mkFillCtx r p nti) mlyTries _ _ _ H (mlyFuel nti) q mlyTries {}
       hst.1 x hx with h | ⟨q', r1, r2, r3, _⟩
     · cases h
-    · obtain ⟨m1, m2⟩ := (mem_mEp_iff r p nti hr hp hs hsup hy hf hsh hpos q' r1 r2 x).1 r3
-      exact ⟨mE_inst r p nti hr hp hs hsup hy q' r1 r2 x m1, m2⟩
+    · obtain ⟨m1, m2⟩ := (mem_mEp_iff r p nti hr hp hsup hy hf hsh hpos q' r1 r2 x).1 r3
+      exact ⟨mE_inst r p nti hr hp hsup hy q' r1 r2 x m1, m2⟩
 
 /-- C01, completeness of the monthly filler with BYSETPOS (no SHIFT): an instance `x` chosen by BYSETPOS, at or after the
 seed, not after UNTIL and not after 2099 is in the result `l`, or `l` is full and all of it comes before `x`
 (`MlyFirstPos`: the rule has an occurrence within its first 336 periods) -/
 theorem fillMly_complete_pos (r : Rule) (p : Inst) (n : Nat) (l : List Inst) (hr : WfRule r) (hp : WfInst p)
-    (hs : SeedOk r p) (_hn : n ≤ 64) (hy : 1901 ≤ p.y) (hsup : MlySup r) (hsh : r.shift = 0) (hf : r.freq = 2)
+    (_hn : n ≤ 64) (hy : 1901 ≤ p.y) (hsup : MlySup r) (hsh : r.shift = 0) (hf : r.freq = 2)
     (hpos : r.pos ≠ []) (hfp : MlyFirstPos r p) (h : fillMly r p n = some l)
     (x : Inst) (hx : MonthlyInst r p x) (hsp : SetposOk r p x) (hge : absOf p ≤ absOf x)
     (hle : ltP r.untl x = false) (hxy : x.y ≤ 2099) :
@@ -80,16 +80,16 @@ theorem fillMly_complete_pos (r : Rule) (p : Inst) (n : Nat) (l : List Inst) (hr
   · have hst := mlyStart_spec r p hr hp hsh
     rw [hq] at hst
     have hsim := mlyLoop_aLoop_pos r p nti hsh (mlyFuel nti) q
-    have hsubAll := fun q hq hq2 => mEp_sub r p nti hr hp hs hsup hy hf hsh hpos q hq hq2
+    have hsubAll := fun q hq hq2 => mEp_sub r p nti hr hp hsup hy hf hsh hpos q hq hq2
     have H := loopHyp_sub (fun q : Nat × Int => q.1) (mE r p nti) (mEp r p nti)
       (fun q => mlyNext r.mon r.inter 12 q.1 q.2) (mly_loopHyp r p nti hr hp hsup hy) hsubAll
-    have G0 := mly_targetHyp r p nti hr hp hs hsup hy (mlyFirst_of_pos hfp)
+    have G0 := mly_targetHyp r p nti hr hp hsup hy (mlyFirst_of_pos hfp)
     have G := targetHyp_sub (mkFillCtx r p nti) mlyTries (fun q : Nat × Int => q.1) (mE r p nti) (mEp r p nti)
       (fun q => mlyNext r.mon r.inter 12 q.1 q.2) G0 (fun x => SetposOk r p x)
       (fun q hq hq2 => (hsubAll q hq hq2).2)
       (fun x q hx hQ hq he => by
         obtain ⟨y2, hm⟩ := G0.here x q hx hq he
-        exact (mem_mEp_iff r p nti hr hp hs hsup hy hf hsh hpos q hq y2 x).2 ⟨hm, hQ⟩)
+        exact (mem_mEp_iff r p nti hr hp hsup hy hf hsh hpos q hq y2 x).2 ⟨hm, hQ⟩)
       (fun x j hx hQ hj hjx => mly_periodic_pos r p hr hp hy hf hfp x j hx hQ hj hjx)
     have hI : CInv (mkFillCtx r p nti) mlyTries (fun q : Nat × Int => q.1) (mEp r p nti) (mReach r p) (mG r p)
         (fun x => mTarget r p x ∧ SetposOk r p x) (mGi r p) q mlyTries {} := by
@@ -122,21 +122,21 @@ theorem fillMly_complete_pos (r : Rule) (p : Inst) (n : Nat) (l : List Inst) (hr
 
 /-- C01, soundness of the monthly filler (no SHIFT), with or without BYSETPOS -/
 theorem fillMly_sound_all (r : Rule) (p : Inst) (n : Nat) (l : List Inst) (hr : WfRule r) (hp : WfInst p)
-    (hs : SeedOk r p) (hn : n ≤ 64) (hy : 1901 ≤ p.y) (hsup : MlySup r) (hsh : r.shift = 0)
+    (hn : n ≤ 64) (hy : 1901 ≤ p.y) (hsup : MlySup r) (hsh : r.shift = 0)
     (hf : r.pos ≠ [] → r.freq = 2) (h : fillMly r p n = some l) : ∀ x ∈ l, MonthlyInst r p x ∧ SetposOk r p x := by
   by_cases hpos : r.pos = []
-  · exact fillMly_sound r p n l hr hp hs hn hy hsup hsh hpos h
-  · exact fillMly_sound_pos r p n l hr hp hs hn hy hsup hsh (hf hpos) hpos h
+  · exact fillMly_sound r p n l hr hp hn hy hsup hsh hpos h
+  · exact fillMly_sound_pos r p n l hr hp hn hy hsup hsh (hf hpos) hpos h
 
 /-- C01, completeness of the monthly filler (no SHIFT), with or without BYSETPOS -/
 theorem fillMly_complete_all (r : Rule) (p : Inst) (n : Nat) (l : List Inst) (hr : WfRule r) (hp : WfInst p)
-    (hs : SeedOk r p) (hn : n ≤ 64) (hy : 1901 ≤ p.y) (hsup : MlySup r) (hsh : r.shift = 0)
+    (hn : n ≤ 64) (hy : 1901 ≤ p.y) (hsup : MlySup r) (hsh : r.shift = 0)
     (hf : r.pos ≠ [] → r.freq = 2) (hfp : MlyFirstPos r p) (h : fillMly r p n = some l)
     (x : Inst) (hx : MonthlyInst r p x) (hsp : SetposOk r p x) (hge : absOf p ≤ absOf x)
     (hle : ltP r.untl x = false) (hxy : x.y ≤ 2099) :
     x ∈ l ∨ (l.length = capOf r n ∧ ∀ z ∈ l, ltP z x = true) := by
   by_cases hpos : r.pos = []
-  · exact fillMly_complete r p n l hr hp hs hn hy hsup hsh hpos (mlyFirst_of_pos hfp) h x hx hge hle hxy
-  · exact fillMly_complete_pos r p n l hr hp hs hn hy hsup hsh (hf hpos) hpos hfp h x hx hsp hge hle hxy
+  · exact fillMly_complete r p n l hr hp hn hy hsup hsh hpos (mlyFirst_of_pos hfp) h x hx hge hle hxy
+  · exact fillMly_complete_pos r p n l hr hp hn hy hsup hsh (hf hpos) hpos hfp h x hx hsp hge hle hxy
 
 end Echse.Lemmas.RrMlyRfc
